@@ -196,6 +196,15 @@ func buildFaults(m *gen.Model, base *gen.Rendered, r *xrand.Rand) []fault {
 		{"type-in-macro-pasted-twice", "MACRO @twiceTypeM\n(\n  TYPE @twiceType any\n)\nPASTE @twiceTypeM\nMACRO @viaM\n(\n  PASTE @twiceTypeM\n)\nPASTE @viaM\n"},
 		{"server-in-macro-pasted-twice", "MACRO @twiceSrvM\n(\n  SERVER @twiceSrv\n    BaseUrl \"https://a/\"\n)\nPASTE @twiceSrvM\nPASTE @twiceSrvM\n"},
 		{"method-in-macro-pasted-twice", "MACRO @twiceGetM\n(\n  GET /twice/get\n    200 any\n)\nPASTE @twiceGetM\nPASTE @twiceGetM\n"},
+		{"similar-paths-root-parameter", "GET /{rootParamA}\n  200 any\nGET /{rootParamB}\n  200 any\n"},
+		{"similar-paths-root-parameter-url", "URL /{rootUrlA}/things\n  GET\n    200 any\nURL /{rootUrlB}/things\n  POST\n    Request any\n    200 any\n"},
+		{"similar-paths-root-parameter-deeper", "GET /{tenantA}/zzcats/{id}\n  200 any\nPOST /{tenantB}/zzcats/{id}\n  Request any\n  200 any\n"},
+		{"type-without-name-regex", "TYPE regex\n/ab+/\n"},
+		{"type-without-name-any", "TYPE any\n"},
+		{"type-without-name-empty", "TYPE empty\n"},
+		{"type-without-name-jsight", "TYPE jsight\n{}\n"},
+		{"enum-without-name-with-annotation", "ENUM // an enum\n[1, 2]\n"},
+		{"server-without-name-with-annotation", "SERVER // a server\n  BaseUrl \"https://zz/\"\n"},
 		{"second-Title-after-empty-Title", "MACRO @unusedInfoM\n(\n  TYPE @uim any\n)\n"}, // placeholder replaced below when there is no INFO
 	} {
 		if sn[0] == "second-Title-after-empty-Title" {
